@@ -14,6 +14,7 @@ two threads on two CPUs; the TLC-generated histories are additionally
 re-instantiated for every published channel of every model.
 """
 import json
+import os
 import random
 
 from vlib import core, emuhist
@@ -161,9 +162,69 @@ def main_c08(tier):
                           "event tables 10 shapes + depth probes 511/512/513; non-trivial = at least 3 events; distinct by event list")
 
 
+def bay_layer(ck, bdir, tier):
+    """Implementation layer of C06: spec/Bay.tla (chan.c / bay.c / mux.c as written) must satisfy the
+    View at every quiescent point for every order of the writes of an event; three wrong variants must
+    be refuted; the exported event sequences are replayed in process on the real chan/bay/mux."""
+    import subprocess
+    r = core.tlc("Bay", "Bay.cfg", timeout=1200)
+    core.tlc_expect_ok(r, "Bay")
+    ck.add_tlc(r, "Bay (mux with 2 inputs, all write orders, 4 events)")
+    if r.violated:
+        ck.violation("Bay model (chan/bay/mux as written) violates %s" % r.violated, {"tlc.out": r.out[-20000:]})
+    for neg in ("Bay_NegNoDisable.cfg", "Bay_NegReadBefore.cfg", "Bay_NegStaleSelect.cfg"):
+        rn = core.tlc("Bay", neg, timeout=600)
+        ck.add_tlc(rn, "Bay/%s (must fail)" % neg)
+        if not rn.violated:
+            raise core.MachineryError("negative configuration %s no longer fails" % neg)
+    rx = core.tlc("Bay", "Bay_Export.cfg", workers=4, timeout=1200)
+    core.tlc_expect_ok(rx, "Bay export")
+    cases = [o for tg, o in rx.lines if tg == "TR"]
+    if not cases:
+        raise core.MachineryError("Bay export is empty")
+    drv = core.cc_driver(bdir, "bayharness.c", emu=True)
+    d = core.mkscratch("bay")
+    try:
+        lines = []
+        for c in cases:
+            evs = []
+            for ev_ in c["events"]:
+                ws = []
+                for ch, v in ev_:
+                    ws.append(("s=%d" % v) if ch == "sel" else ("i%s=%d" % (ch[2:], v)))
+                evs.append(" ".join(ws))
+            lines.append("2 9 ; " + " ; ".join(evs))
+        path = os.path.join(d, "in")
+        open(path, "w").write("\n".join(lines) + "\n")
+        p = subprocess.run([drv, path], stdout=subprocess.PIPE, stderr=subprocess.PIPE, text=True, timeout=300)
+        outs = p.stdout.splitlines()
+    finally:
+        import shutil
+        shutil.rmtree(d, ignore_errors=True)
+    if p.returncode != 0 or len(outs) != len(cases):
+        ck.violation("bayharness died on a TLC-generated event sequence (rc=%s, %d of %d lines)"
+                     % (p.returncode, len(outs), len(cases)), {"stderr.txt": p.stderr[-3000:]}, sig="bay:crash")
+        return
+    agree = 0
+    for c, o in zip(cases, outs):
+        want = "fail" if c["failed"] else "ok %d" % c["out"]
+        ck.case("bay:" + json.dumps(c["events"]), nontrivial=len(c["events"]) >= 2)
+        if o == want:
+            agree += 1
+        else:
+            ck.violation("real chan/bay/mux disagree with Bay.tla on an event sequence: got %r, the model says %r\n"
+                         "events (sel: 0 = null, k = input k; inputs: 0 = null): %s"
+                         % (o, want, json.dumps(c["events"])), {"case.json": c},
+                         sig="bay:%s" % ("fail" if "fail" in (o, want) else "value"))
+    ck.cov["traces_validated_against_impl"] += agree
+    ck.notes["bay_layer"] = {"sequences_replayed_on_real_mux": len(cases), "agree": agree}
+
+
 def main_c06(tier):
     ck = core.Check("C06", "model_checking", tier)
     bdir = core.build("hooks")
+    bay_layer(ck, bdir, tier)
+    ck.phase("bay_layer")
     cfg = "EmuMC_C06.cfg" if tier == "quick" else "EmuMC_C06_Thorough.cfg"
     r, g = emuhist.explore(cfg)
     ck.add_tlc(r, "EmuMC/%s (flush ANY, kernel cs ANY, mpi RUN, nodes ACT x thread states x affinity)" % cfg)
